@@ -250,7 +250,7 @@ def check_c10(case, stats):
 
 
 CHECKS = {'check_c10': check_c10}
-_B = {'quick': 60, 'thorough': 500}
+_B = {'quick': 60, 'thorough': 1500}
 
 
 def shards(tier):
@@ -261,5 +261,5 @@ def shards(tier):
 
 def run_shard(shard, tier, seed, stats, known_sigs):
   if shard.get('large'):
-    return drive(check_c10, large_case(), {'quick': 4, 'thorough': 40}[tier], seed, stats, known_sigs, name='check_c10')
+    return drive(check_c10, large_case(), {'quick': 4, 'thorough': 100}[tier], seed, stats, known_sigs, name='check_c10')
   return drive(check_c10, case_strategy(shard['est']), _B[tier], seed, stats, known_sigs, name='check_c10')
